@@ -51,6 +51,21 @@ pub fn build(rng: &mut Rng, i: usize) -> PDB {
         atf: i % 2 == 0,
     };
     let mut pdb = gen::structure(rng, &sh);
+    // two chains whose names differ in case only (structures with more than 26 chains use both alphabets): renamed here,
+    // not added through add_atom, so that the structure does not depend on how add_atom looks chains up
+    if rng.chance(1, 4) {
+        let (u, lw) = *rng.pick(&[("A", "a"), ("B", "b"), ("X", "x")]);
+        let swap = rng.chance(1, 2);
+        for m in pdb.models_mut() {
+            if m.chain_count() >= 2 {
+                let mut it = m.chains_mut();
+                if let (Some(c0), Some(c1)) = (it.next(), it.next()) {
+                    let _ = c0.set_id(if swap { lw } else { u });
+                    let _ = c1.set_id(if swap { u } else { lw });
+                }
+            }
+        }
+    }
     // model numbers: from 1 (as generated), from 0 (what a PDB file without MODEL records gives), or with gaps
     match rng.below(4) {
         0 => {
